@@ -13,6 +13,7 @@ import tempfile
 NAME_CLASSES = {
     "plain": "out.dat", "space": "my out.dat", "nonascii": "données-中.dat",
     "hash": "a#b.dat", "query": "q?x.dat", "semi": "p;q.dat", "colon": "c:d.dat",
+    "scheme": "https:report.dat",      # a relative name that begins like a URL scheme
     "subdir": "sub/out.dat", "percent": "a%20b.dat", "abs": None,  # abs: absolute path of plain
 }
 
@@ -68,7 +69,9 @@ class Recorder(object):
         others = sorted(k for k in set(now) | set(self.base)
                         if k != rel and not is_tmp(k) and now.get(k) != self.base.get(k))
         tmp = sorted(k for k in now if is_tmp(k))
-        return {"named": self.named_state(now.get(rel)), "others": others, "ntmp": len(tmp)}
+        # ndest: temporary files sitting in the destination's own directory tree (not the system one)
+        return {"named": self.named_state(now.get(rel)), "others": others, "ntmp": len(tmp),
+                "ndest": len([k for k in tmp if not k.startswith("tmp" + os.sep)])}
 
     def event(self, ev, **kw):
         e = {"ev": ev, "snap": self.snap()}
@@ -84,10 +87,22 @@ class Recorder(object):
 
 
 class WriteProxy(object):
-    """File object opened for writing: counts writes, snapshots, injects."""
+    """File object opened for writing: counts writes, snapshots, injects.
+
+    Models what a buffered binary file does with a failing device: data accepted by write() but not
+    yet on disk stays pending and is flushed by close(); a failed close() still closes the file (a
+    second close() is a no-op).  Faults: the k-th write (nothing / half / all but one byte reaches
+    the disk), optionally persistent (every later write and the flush of close() fail too - a full
+    disk stays full); or the final flush of close() (the last write is held back until then)."""
 
     def __init__(self, rec, real, role):
         self._rec, self._real, self._role = rec, real, role
+        self._pending = b""
+        self._closed = False
+
+    def _persisting(self):
+        r = self._rec
+        return r.fired and r.fault.get("persist") and r.fault.get("at") == "write"
 
     def write(self, data):
         r = self._rec
@@ -95,24 +110,63 @@ class WriteProxy(object):
         k = r.nwrite
         if self._role == "tmp":
             r.intended += data if isinstance(data, bytes) else data.encode("utf-8")
+        if self._persisting():
+            self._pending += data
+            r.event("write", k=k, role=self._role, failed=True)
+            raise Injected(errno.ENOSPC, "injected write failure (persistent)")
+        if self._pending:
+            self._real.write(self._pending)
+            self._real.flush()
+            self._pending = b""
         if r.should_fail("write", k):
             short = r.fault.get("short", "none")
             n = {"none": 0, "half": len(data) // 2, "most": max(len(data) - 1, 0)}[short]
             if n:
                 self._real.write(data[:n])
                 self._real.flush()
+            self._pending = data[n:]
             r.event("write", k=k, role=self._role, failed=True)
             raise Injected(errno.ENOSPC, "injected write failure")
+        if r.fault.get("at") == "close" and self._role == "tmp":
+            self._pending = data          # held back: reaches the disk at the next write or at close()
+            r.event("write", k=k, role=self._role, failed=False)
+            return len(data)
         res = self._real.write(data)
         self._real.flush()
         r.event("write", k=k, role=self._role, failed=False)
         return res
 
+    def flush(self):
+        pass                               # only close() is a synchronisation point of the protocol
+
     def close(self):
+        if self._closed:
+            return
+        self._closed = True
+        r = self._rec
+        fail = False
+        if self._pending:
+            if self._persisting():
+                fail = True
+            elif self._role == "tmp" and r.should_fail("close"):
+                short = r.fault.get("short", "none")
+                n = {"none": 0, "half": len(self._pending) // 2, "most": max(len(self._pending) - 1, 0)}[short]
+                if n:
+                    self._real.write(self._pending[:n])
+                fail = True
+            else:
+                self._real.write(self._pending)
+            self._pending = b""
         was = self._real.closed
         self._real.close()
         if not was:
-            self._rec.event("close", role=self._role)
+            r.event("close", role=self._role, failed=fail)
+        if fail:
+            raise Injected(errno.ENOSPC, "injected failure of the final flush")
+
+    @property
+    def closed(self):
+        return self._closed
 
     def __enter__(self):
         return self
